@@ -254,6 +254,8 @@ class CVIART(BaseART):
 
         self.W: list[np.ndarray] = []
         self.labels_ = np.zeros((X.shape[0],), dtype=int)
+        self.base_module.sample_counter_ = 0
+        self.base_module.weight_sample_counter_ = []
         for _ in range(max_iter):
             for index, x in enumerate(X):
                 self.pre_step_fit(X)
@@ -294,6 +296,7 @@ class CVIART(BaseART):
                 )
                 self.labels_[index] = c
                 self.post_step_fit(X)
+        return self
 
     def pre_step_fit(self, X: np.ndarray):
         """Preprocessing step before fitting each sample.
